@@ -56,7 +56,8 @@ Lemma morsel_serialize_head : forall m line, morsel_serialize m = Ok line ->
 Proof.
   intros m line H. unfold morsel_serialize in H.
   destruct (truthy (m_samesite m)) as [ss|].
-  - destruct (negb (m_secure m) && is_none ss); [discriminate|]. inversion H. unfold join_semi.
+  - destruct (negb (m_secure m) && is_none ss); [discriminate|]. destruct (is_ascii ss); [|discriminate].
+    inversion H. unfold join_semi.
     cbn [app]. rewrite join_head, <- !app_assoc. cbn [app]. eexists. reflexivity.
   - inversion H. unfold join_semi. cbn [app]. rewrite join_head, <- !app_assoc. cbn [app]. eexists. reflexivity.
 Qed.
@@ -86,7 +87,7 @@ Section Response.
     destruct (latin1_opt (a_path a)) as [pth|]; [|discriminate].
     destruct (latin1_opt (a_comment a)) as [com|]; [|discriminate].
     destruct (latin1_opt (a_samesite a)) as [ss|]; [|discriminate].
-    destruct (match ss with Some s => if negb (samesite_ok s) then Raise ValueError else Ok tt | None => Ok tt end);
+    destruct (match ss with Some s => if a_validate a && negb (samesite_ok s) then Raise ValueError else Ok tt | None => Ok tt end);
       [|discriminate].
     split; [reflexivity|]. split; [apply valid_res_key_ok; exact Hv|].
     apply morsel_serialize_head in H. exact H.
